@@ -163,6 +163,10 @@ def lifecycle_fp(recipe):
 def full_digest(pp, w, recipe):
     """Everything observable about the recipe; a refused call must leave it unchanged."""
     parts = [lifecycle_fp(recipe), tuple(s.operator for s in recipe.steps),
+             # everything else the object carries (e.g. where the open stage started): a refused call must not touch it
+             tuple(sorted((k, repr(v)) for k, v in vars(recipe).items()
+                          if k not in ('results', 'steps', 'stages', 'used')
+                          and not (k == 'current_stage_start' and recipe.current_stage == 'all'))),
              tuple(sorted((k, _objdig(v)) for k, v in recipe.results.items()))]
     if recipe.locked:
         parts.append(_tracking(pp, w, recipe))
